@@ -97,9 +97,9 @@ theorem encodeNsAttrs_notText : ∀ (attrs : List ((Str × Str) × Str)) (env : 
 
 /-! ### `open_element` -/
 
-/-- The builder right after the start tag of an element with expanded name (`ns`, `loc`),
-    declarations `decls` and attributes `nattrs`. -/
-def Builder.openedNs (b : Builder) (ns loc : Str) (decls : List (Str × Str)) (nattrs : List ((Str × Str) × Str))
+/-- The builder right after the start tag of an element written with the prefix `wp`, with
+    expanded name (`ns`, `loc`), declarations `decls` and attributes `nattrs`. -/
+def Builder.openedNs (b : Builder) (wp ns loc : Str) (decls : List (Str × Str)) (nattrs : List ((Str × Str) × Str))
     (idn : List (Str × Path)) (sp : SpanMap) : Builder :=
   { env := (encodeNsAttrs (((encodeDecls b.env decls).1.internNamespace ns).1.internName loc
         ((encodeDecls b.env decls).1.internNamespace ns).2).1 nattrs).1,
@@ -108,10 +108,11 @@ def Builder.openedNs (b : Builder) (ns loc : Str) (decls : List (Str × Str)) (n
       ((encodeDecls b.env decls).2 ++ (encodeNsAttrs (((encodeDecls b.env decls).1.internNamespace ns).1.internName loc
         ((encodeDecls b.env decls).1.internNamespace ns).2).1 nattrs).2).reverse⟩,
     parents := b.cur :: b.parents, nsStack := (declIds b.env decls).2 :: b.nsStack, eb := none,
-    seenIds := (attrIds nattrs).reverse ++ b.seenIds, idNodes := idn, spans := sp }
+    seenIds := (attrIds nattrs).reverse ++ b.seenIds, idNodes := idn, spans := sp,
+    openPrefixes := wp :: b.openPrefixes }
 
-theorem openedNs_app (b : Builder) (ns loc : Str) (decls : List (Str × Str)) (nattrs : List ((Str × Str) × Str))
-    (idn : List (Str × Path)) (sp : SpanMap) : EnvApp b.env (b.openedNs ns loc decls nattrs idn sp).env :=
+theorem openedNs_app (b : Builder) (wp ns loc : Str) (decls : List (Str × Str)) (nattrs : List ((Str × Str) × Str))
+    (idn : List (Str × Path)) (sp : SpanMap) : EnvApp b.env (b.openedNs wp ns loc decls nattrs idn sp).env :=
   (((encodeDecls_app b.env decls).trans (internNamespace_app _ ns)).trans (internName_app _ loc _)).trans
     (encodeNsAttrs_app nattrs _)
 
@@ -131,16 +132,16 @@ theorem frames_push {b : Builder} {frames : List (List (Str × Str))} (hr : Read
   · simp only [List.map_cons]
     rw [hf1, idFrame_app hx hf2, hr.stack, idFrames_app (happ.trans hx) hr.frames]
 
-theorem readyNs_opened {b : Builder} {frames : List (List (Str × Str))} (hr : ReadyNs b frames) (ns loc : Str)
+theorem readyNs_opened {b : Builder} {frames : List (List (Str × Str))} (hr : ReadyNs b frames) (wp ns loc : Str)
     (decls : List (Str × Str)) (nattrs : List ((Str × Str) × Str)) (idn : List (Str × Path)) (sp : SpanMap) :
-    ReadyNs (b.openedNs ns loc decls nattrs idn sp) (decls :: frames) := by
-  have hx : EnvApp (declIds b.env decls).1 (b.openedNs ns loc decls nattrs idn sp).env :=
+    ReadyNs (b.openedNs wp ns loc decls nattrs idn sp) (decls :: frames) := by
+  have hx : EnvApp (declIds b.env decls).1 (b.openedNs wp ns loc decls nattrs idn sp).env :=
     ((internNamespace_app _ ns).trans (internName_app _ loc _)).trans (encodeNsAttrs_app nattrs _)
   obtain ⟨h1, h2⟩ := frames_push hr decls hx
-  exact ⟨rfl, hr.base.app (openedNs_app b ns loc decls nattrs idn sp), h2, h1⟩
+  exact ⟨rfl, hr.base.app (openedNs_app b wp ns loc decls nattrs idn sp), h2, h1⟩
 
-theorem headOk_openedNs (b : Builder) (ns loc : Str) (decls : List (Str × Str)) (nattrs : List ((Str × Str) × Str))
-    (idn : List (Str × Path)) (sp : SpanMap) : HeadOk (b.openedNs ns loc decls nattrs idn sp) := by
+theorem headOk_openedNs (b : Builder) (wp ns loc : Str) (decls : List (Str × Str)) (nattrs : List ((Str × Str) × Str))
+    (idn : List (Str × Path)) (sp : SpanMap) : HeadOk (b.openedNs wp ns loc decls nattrs idn sp) := by
   intro s ks more heq
   simp only [Builder.openedNs] at heq
   have hm : Tree.node (.text s) ks ∈ ((encodeDecls b.env decls).2 ++
@@ -163,7 +164,7 @@ theorem openElement_ns {b : Builder} {frames : List (List (Str × Str))} (hr : R
         eb := some { (ElementBuilder.new pfx loc) with
           namespaces := (declIds b.env (declsOf attrs)).2,
           attributes := (ordinary attrs).map NSAttr.builder } } : Builder).openElement =
-      .ok (b.openedNs (((flatScope frames).push (declsOf attrs)).resolve pfx.text) loc.text (declsOf attrs)
+      .ok (b.openedNs pfx.text (((flatScope frames).push (declsOf attrs)).resolve pfx.text) loc.text (declsOf attrs)
         (attrsOf ((flatScope frames).push (declsOf attrs)) attrs) idn sp) := by
   obtain ⟨u, hu⟩ := Option.isSome_iff_exists.mp hp
   have hres : ((flatScope frames).push (declsOf attrs)).resolve pfx.text = u := by simp [Scope.resolve, hu]
@@ -209,26 +210,26 @@ theorem openElement_ns {b : Builder} {frames : List (List (Str × Str))} (hr : R
 /-! ### End tags -/
 
 /-- The empty-element tag `/>` right after the start tag was read. -/
-theorem closeImmediate_openedNs (b : Builder) (he : b.eb = none) (ns loc : Str) (decls : List (Str × Str))
+theorem closeImmediate_openedNs (b : Builder) (he : b.eb = none) (wp ns loc : Str) (decls : List (Str × Str))
     (nattrs : List ((Str × Str) × Str)) (idn : List (Str × Path)) (sp0 : SpanMap) (endSp : StrSpan) :
-    (b.openedNs ns loc decls nattrs idn sp0).closeImmediate endSp =
+    (b.openedNs wp ns loc decls nattrs idn sp0).closeImmediate endSp =
       .ok (b.emitNs (NPNode.encode b.env (.elem ns loc decls nattrs [])).1
         [(NPNode.encode b.env (.elem ns loc decls nattrs [])).2] ((attrIds nattrs).reverse ++ b.seenIds) idn
-        (sp0.add ⟨(b.openedNs ns loc decls nattrs idn sp0).curPath, .elementEnd⟩ endSp.span)) := by
+        (sp0.add ⟨(b.openedNs wp ns loc decls nattrs idn sp0).curPath, .elementEnd⟩ endSp.span)) := by
   simp only [Builder.closeImmediate, Builder.openedNs, Value.isElement, if_true, Builder.leave, Builder.toParent,
     Frame.close, Builder.emitNs, Builder.curPath, List.reverse_reverse, List.reverse_cons, List.reverse_nil,
     List.nil_append, List.singleton_append, List.tail_cons, he, NPNode.encode, NPNode.encode.encodeList,
     List.append_nil]
 
 /-- The end tag `</cpfx:cloc>` after the children were added. -/
-theorem run_close_ns {b : Builder} {frames : List (List (Str × Str))} (hr : ReadyNs b frames) (ns loc : Str)
+theorem run_close_ns {b : Builder} {frames : List (List (Str × Str))} (hr : ReadyNs b frames) (wp ns loc : Str)
     (decls : List (Str × Str)) (nattrs : List ((Str × Str) × Str)) (idn0 : List (Str × Path)) (sp0 : SpanMap)
     (ek : Env) (tk : List Tree) (seenk : List Str) (idnk : List (Str × Path)) (spk : SpanMap)
-    (hext : EnvApp (b.openedNs ns loc decls nattrs idn0 sp0).env ek)
-    (cpfx cloc : StrSpan) (closeSp : StrSpan) (hc : cloc.text = loc)
+    (hext : EnvApp (b.openedNs wp ns loc decls nattrs idn0 sp0).env ek)
+    (cpfx cloc : StrSpan) (closeSp : StrSpan) (hcp : cpfx.text = wp) (hc : cloc.text = loc)
     (hl : ((flatScope frames).push decls).lookup cpfx.text = some ns)
     (rest : List Token) (lexErr : Option Nat) :
-    ∃ sp, ((b.openedNs ns loc decls nattrs idn0 sp0).emitNs ek tk seenk idnk spk).run
+    ∃ sp, ((b.openedNs wp ns loc decls nattrs idn0 sp0).emitNs ek tk seenk idnk spk).run
         (.elementEnd (.close cpfx cloc) closeSp :: rest) lexErr =
       (b.emitNs ek [.node (.element (((encodeDecls b.env decls).1.internNamespace ns).1.internName loc
           ((encodeDecls b.env decls).1.internNamespace ns).2).2)
@@ -256,18 +257,19 @@ theorem run_close_ns {b : Builder} {frames : List (List (Str × Str))} (hr : Rea
     have := ((encodeNsAttrs_app nattrs _).trans hext)
     simp only [encodeDecls, hrn0] at this
     exact this
-  refine ⟨spk.add ⟨(b.openedNs ns loc decls nattrs idn0 sp0).curPath, .elementEnd⟩ closeSp.span, ?_⟩
+  refine ⟨spk.add ⟨(b.openedNs wp ns loc decls nattrs idn0 sp0).curPath, .elementEnd⟩ closeSp.span, ?_⟩
   simp only [Builder.run, Builder.step]
-  have hstep : ((b.openedNs ns loc decls nattrs idn0 sp0).emitNs ek tk seenk idnk spk).closeElement cpfx cloc closeSp =
+  have hstep : ((b.openedNs wp ns loc decls nattrs idn0 sp0).emitNs ek tk seenk idnk spk).closeElement cpfx cloc closeSp =
       .ok (b.emitNs ek [.node (.element (((encodeDecls b.env decls).1.internNamespace ns).1.internName loc
           ((encodeDecls b.env decls).1.internNamespace ns).2).2)
         ((encodeDecls b.env decls).2 ++ ((encodeNsAttrs (((encodeDecls b.env decls).1.internNamespace ns).1.internName loc
           ((encodeDecls b.env decls).1.internNamespace ns).2).1 nattrs).2 ++ tk))] seenk idnk
-        (spk.add ⟨(b.openedNs ns loc decls nattrs idn0 sp0).curPath, .elementEnd⟩ closeSp.span)) := by
+        (spk.add ⟨(b.openedNs wp ns loc decls nattrs idn0 sp0).curPath, .elementEnd⟩ closeSp.span)) := by
     unfold Builder.closeElement
     simp only [Builder.emitNs, Builder.openedNs] at hname ⊢
     rw [hname]
-    simp only [List.isEmpty_cons, Bool.false_eq_true, if_false, bne_self_eq_false]
+    simp only [List.isEmpty_cons, Bool.false_eq_true, if_false, bne_self_eq_false, samePrefix, List.head?_cons,
+      hcp, BEq.rfl, Bool.not_true, Bool.or_false]
     simp only [Builder.leave, Builder.toParent, Frame.close, Builder.curPath, List.reverse_append, List.reverse_reverse,
       List.reverse_cons, List.reverse_nil, List.nil_append, List.singleton_append, List.tail_cons, hr.eb,
       List.append_assoc]
